@@ -522,7 +522,7 @@ pub fn run(ctx: &Ctx) {
         "Models built through the API from a generated description: packages and elements named from a letter/digit universe (a, a1, a2, a10, a1b, a02, pkg1, pkg10, n007, n7 ...), COMPU-SCALEs, ECUC containers / parameter values with INDEX and DEFINITION-REF keys (equal keys included), mixed kinds inside the ELEMENTS bag, an ordered ARGUMENTS container, sibling lists of up to 60 elements; each model is built twice, the second time with every reorderable sibling list permuted. \
          Oracle: sort() keeps the element objects and a canonical form (order-sensitive only where the specification forbids reordering), keeps specification order (own grammar matcher), path and reference lookups; sort.sort == sort on the serialized text; sort(permuted) == sort(original) byte for byte; no panic. Non-trivial: >= 3 reorderable siblings and a non-identity permutation; distinct by sorted text and permutation.",
     );
-    let cases = ctx.tier.pick(3_000u64, 150_000u64);
+    let cases = ctx.tier.pick(12_000u64, 150_000u64);
     {
         let mut st = Stats::new();
         st.sample(json!({"ordered_flags_read_from_the_specification": format!("{:?}", ordered_flags())}));
